@@ -3,7 +3,7 @@ Every program is deterministic and straight enough for one concrete execution to
 import itertools
 
 CONNECTORS = ["assign", "binop", "call_return", "field", "element", "dict", "closure", "global", "tuple", "branch", "loop_once", "augmented",
-              "list_append", "field_append", "dict_append", "method_store", "alias_field", "reassign_source"]
+              "list_append", "field_append", "dict_append", "method_store", "alias_field", "reassign_source", "kwargs_extra", "varargs", "keyword_arg", "kwargs_sink"]
 SOURCES = ["call", "param"]
 SINKS = ["direct", "callee"]
 
@@ -65,6 +65,20 @@ class Chain:
                 body += ["om%d = Box()" % i, "om%d.put(%s)" % (i, cur), "%s = om%d.f" % (nv, i)]
             elif k == "alias_field":
                 body += ["oa%d = Box()" % i, "ob%d = oa%d" % (i + 50, i), "ob%d.f = %s" % (i + 50, cur), "%s = oa%d.f" % (nv, i)]
+            elif k == "kwargs_extra":
+                # an extra keyword lands in **opts while a declared parameter (mode) stays unfilled
+                top += ["def kw%d(req, mode=None, **opts):" % i, '    r = opts["cmd"]', "    return r", ""]
+                body.append("%s = kw%d(1, cmd=%s)" % (nv, i, cur))
+            elif k == "kwargs_sink":
+                # the extra keyword is read out of **opts and reaches a sink inside the callee
+                top += ["def kws%d(req, mode=None, **opts):" % i, '    sink(opts["cmd"])', "    return req", ""]
+                body += ["w%d = kws%d(1, cmd=%s)" % (i, i, cur), "%s = %s" % (nv, cur)]
+            elif k == "varargs":
+                top += ["def va%d(first, *rest):" % i, "    q = rest[0]", "    return q", ""]
+                body.append("%s = va%d(1, %s)" % (nv, i, cur))
+            elif k == "keyword_arg":
+                top += ["def kn%d(req, mode=None, cmd=None):" % i, "    return cmd", ""]
+                body.append("%s = kn%d(1, cmd=%s)" % (nv, i, cur))
             elif k == "reassign_source":
                 # the same variable is assigned from a source a second time; the second value travels on through its own assignment
                 body += ["keep%d = %s" % (i, cur), "sink(keep%d)" % i, "%s = source()" % cur, "%s = %s" % (nv, cur)]
